@@ -3,6 +3,8 @@
 import json, os, sys
 HOME = os.path.dirname(os.path.dirname(os.path.abspath(__file__)))
 NOTES = {
+    'C18-A11-printer-object-snapshots-defaults': 'MISSED by C18 as built then (every PrettyPrinter object was built and used at the same point of the history); caught after keeping printer objects built BEFORE the set_default_config history and using them after it',
+    'C07-A11-ordereddict-sorted-under-sort-dict-keys': 'MISSED by C07 as built then (its configurations never set sort_dict_keys); caught after adding sort_dict_keys=True configurations (plain dicts compared order-free there, OrderedDict order-sensitive)',
     'C07-A-pytz-zero-offset-as-utc': 'MISSED by C07 as first built (no zero-offset named zone in the generator); caught after adding GMT/Etc-UTC/Zulu/fixed-offset zones',
     'C17-A-dataclass-default-identity': 'MISSED by C17 as first built (field values were always the very default objects); caught after passing equal-but-distinct copies of defaults',
     'C19-A-str-to-lines-memo-without-pattern': 'MISSED by C19 as first built (no text printed both as str and as path); caught after adding same-content-through-different-printers corpus entries',
